@@ -76,6 +76,8 @@ struct Gate {
     parked: Vec<bool>,
     released: Vec<bool>,
     done: Vec<bool>,
+    /// file type of the mutating operation the actor was parked at
+    park_tpe: Vec<Option<FileType>>,
 }
 
 struct Shared {
@@ -94,6 +96,7 @@ impl Shared {
         g.parked.push(false);
         g.released.push(false);
         g.done.push(false);
+        g.park_tpe.push(None);
         g.count.len() - 1
     }
     fn wait_parked_or_done(&self, a: usize) -> bool {
@@ -131,11 +134,12 @@ impl std::fmt::Debug for ActorBe {
     }
 }
 impl ActorBe {
-    fn gate(&self) {
+    fn gate(&self, tpe: FileType) {
         let a = self.actor;
         let mut g = self.sh.gate.lock().unwrap();
         if g.park_at[a] == Some(g.count[a]) && !g.released[a] {
             g.parked[a] = true;
+            g.park_tpe[a] = Some(tpe);
             self.sh.cv.notify_all();
             while !g.released[a] {
                 g = self.sh.cv.wait(g).unwrap();
@@ -191,12 +195,12 @@ impl WriteBackend for ActorBe {
         self.sh.store.create()
     }
     fn write_bytes(&self, tpe: FileType, id: &Id, cacheable: bool, content: BytesList) -> RusticResult<()> {
-        self.gate();
+        self.gate(tpe);
         let _ = self.sh.archive.write_bytes(tpe, id, cacheable, content.clone());
         self.logged(Kind::Write, tpe, id, || self.sh.store.write_bytes(tpe, id, cacheable, content))
     }
     fn remove(&self, tpe: FileType, id: &Id, cacheable: bool) -> RusticResult<()> {
-        self.gate();
+        self.gate(tpe);
         self.logged(Kind::Remove, tpe, id, || self.sh.store.remove(tpe, id, cacheable))
     }
 }
@@ -759,9 +763,19 @@ fn run_case(line: &str) -> Result<String> {
             FileType::Snapshot => "snapshot",
             _ => "other",
         });
+    let (park_a, park_b) = {
+        let g = sh.gate.lock().unwrap();
+        let nm = |t: Option<FileType>| t.map_or("-", |t| match t {
+            FileType::Pack => "pack",
+            FileType::Index => "index",
+            FileType::Snapshot => "snapshot",
+            _ => "other",
+        });
+        (nm(g.park_tpe[act_a]), nm(g.park_tpe[act_b]))
+    };
     let maxbk = actors.iter().filter(|i| i.kind == 'B').map(|i| i.end_ms - i.start_ms).max().unwrap_or(0);
     let head = format!(
-        "ok scen={scenario} variant={variant} maxbk={maxbk} kdms={kd_ms} firstA={first_a} errF={} A={}{} B={}{} parkedA={} parkedB={} durA={} durB={} kd={} further={} clean={} badrestore={} nsnaps={} errA={} errB={}",
+        "ok scen={scenario} variant={variant} maxbk={maxbk} kdms={kd_ms} firstA={first_a} parkopA={park_a} parkopB={park_b} errF={} A={}{} B={}{} parkedA={} parkedB={} durA={} durB={} kd={} further={} clean={} badrestore={} nsnaps={} errA={} errB={}",
         if actors[further].err.is_empty() { "-" } else { &actors[further].err },
         ia.kind,
         u8::from(ia.ok),
